@@ -15,6 +15,9 @@ package main
 //   park    k>0: park the writer goroutine of connection k at the verif hook point "writerStart" until
 //           wg.Wait() has returned (needs hooks.patch in the library; without hooks the script runs unparked)
 //   appear  (mode late) time in ms at which the listener appears
+//   feed    <event>+<ms>: the application starts handing message lists to the client (msgsToPanel) that long after the
+//           event (same events as cancel); fn lists (default 3), fi ms apart (default 150), each offered until someone
+//           takes it; fq = capacity of the msgsToPanel channel (default 0)
 //   stream  bytes the panel sends after the probe (hex); exp = expected delivery token per complete frame
 //
 // Trace events (ms since the call of ConnectToPanel):
@@ -22,6 +25,7 @@ package main
 //   acc:k | rx:k:hex | tx:k:off (logged BEFORE the write up to off) | pcl:k:off (panel half-closes) | held:k:off
 //   peof:k:eof|rst|other (panel saw the client's end of connection k) | pclose:k (panel fully closed k)
 //   con:k:bin:errhex | dis:k:b | del:tok,tok | ret | wg | wgblocked | nowg | noret | gor:n | gor2:n | hk:<point>:i | hk:release | lag:ms | end
+//   feed:i (list i offered on msgsToPanel) | fed:i (the send completed)
 
 import (
 	"context"
@@ -309,9 +313,33 @@ func nlRunLife(a map[string]string) string {
 	if nc != 0 || rc != 0 {
 		cfg = &helpers.ConnectToPanelConfig{NoConnectionRetryPeriod: nc, ReConnectionRetryPeriod: rc}
 	}
-	toPanel := make(chan []*rwp.InboundMessage)
+	toPanel := make(chan []*rwp.InboundMessage, nlInt(a, "fq", 0))
 	fromPanel := make(chan []*rwp.OutboundMessage)
 	var wg sync.WaitGroup
+	if fs, ok := a["feed"]; ok {
+		fev, fms := nlParseTrigger(fs)
+		fn, fi := nlInt(a, "fn", 3), nlInt(a, "fi", 150)
+		pwg.Add(1)
+		go func() { // the application: traffic towards the panel, whatever state the client is in
+			defer pwg.Done()
+			if !tr.wait(fev, time.Duration(maxms)*time.Millisecond, stop) || !tr.sleep(time.Duration(fms)*time.Millisecond, stop) {
+				return
+			}
+			for i := 1; i <= fn; i++ {
+				is := strconv.Itoa(i)
+				tr.log("", "feed:"+is)
+				select {
+				case toPanel <- []*rwp.InboundMessage{{States: []*rwp.HWCState{{HWCIDs: []uint32{uint32(i)}, HWCMode: &rwp.HWCMode{State: rwp.HWCMode_ON}}}}}:
+					tr.log("", "fed:"+is)
+				case <-stop:
+					return
+				}
+				if !tr.sleep(time.Duration(fi)*time.Millisecond, stop) {
+					return
+				}
+			}
+		}()
+	}
 	label := strconv.FormatInt(atomic.AddInt64(&nlScriptSeq, 1), 10)
 
 	delDone := make(chan struct{})
@@ -620,6 +648,30 @@ func genC11(r *Rng, n int, tier string) {
 	add("bin", &bs, "rc=2", "cyc=1", "cut="+i2(bs.bounds[1]), "cancel=dis1+1500")
 	add("asc", &as, "cyc=1", "cut="+i2(as.bounds[1]), "cancel=dis1+500")
 	add("bin", &bs, "cyc=2", "cut="+i2(bs.bounds[0]), "cancel=dis2+500", "twice=1")
+	//   traffic towards the panel (lists offered on msgsToPanel) while the client waits out the retry period after a
+	//   loss, during the ASCII EOF sleep, and straddling the reconnect; both modes, default and configured periods,
+	//   unbuffered and buffered channel
+	for _, mode := range []string{"bin", "asc"} {
+		s := &bs
+		if mode == "asc" {
+			s = &as
+		}
+		cutAt := i2(s.bounds[0])
+		for _, rc := range []int{0, 2, 3} {
+			for _, fms := range []int{100, 400, 800} {
+				if !thorough && (rc*7+fms/100)%2 == 1 && !(rc == 0 && fms == 100) {
+					continue
+				}
+				add(mode, s, "rc="+i2(rc), "cyc=1", "cut="+cutAt, "feed=dis1+"+i2(fms), "fn=3", "fi=120", "cancel=held+300")
+			}
+		}
+		add(mode, s, "rc=2", "cyc=2", "cut="+cutAt, "feed=dis1+300", "fn=25", "fi=100", "cancel=held+300")
+		add(mode, s, "rc=0", "cyc=1", "cut="+cutAt, "feed=dis1+200", "fn=4", "fi=50", "fq=4", "cancel=held+300")
+		add(mode, s, "rc=2", "cyc=1", "cut="+cutAt, "feed=con1+0", "fn=30", "fi=100", "cancel=held+300")
+		add(mode, s, "rc=2", "cyc=1", "cut="+cutAt, "feed=dis1+500", "fn=2", "fi=100", "cancel=dis1+1200")
+	}
+	add("asc", &as, "cyc=1", "cut="+i2(as.bounds[1]), "feed=pcl1+300", "fn=3", "fi=200", "cancel=held+300")
+	add("refuse", nil, "rc=2", "feed=dis1+400", "fn=2", "fi=100", "cancel=dis2+300")
 	// (4) panel closing right after accept; cancellation while it keeps doing so
 	add("refuse", nil, "cancel=dis1+300")
 	add("refuse", nil, "cancel=dis2+300")
